@@ -291,3 +291,30 @@ Proof.
   { exact (LA 2%nat "asm_main"%string eq_refl eq_refl). }
   rewrite AM. destruct (Nat.ltb_spec 7 (List.length args)); [lia|]. exact RN.
 Qed.
+
+(* the arity of a run that ends with a result or an undefined operation is right *)
+Lemma a64_compile_arity p lc cs n lc' args fuel o :
+  a64_compile p lc = Ok (cs, n, lc') -> run_linear fuel p args = o -> good o -> List.length args = n.
+Proof.
+  intros XC RUN G.
+  unfold a64_compile, a64_compile_with in XC.
+  destruct (compile (a64_backend_with (fun _ => [])) p lc) as [[[is n0] lc0]|] eqn:CP; cbn [rbind] in XC; [|discriminate].
+  destruct (into_aarch64_routine is n0) as [r|] eqn:RT; cbn [rbind] in XC; [|discriminate].
+  inversion XC; subst r n0 lc0; clear XC.
+  unfold compile in CP. unfold run_linear in RUN. destruct (pdefs p) as [|d0 rest] eqn:PD; [discriminate|].
+  destruct (translate _ (ptypes p) (d0 :: rest) lc) as [[is' lc1]|] eqn:TR; cbn [rbind] in CP; [|discriminate].
+  cbn in CP. inversion CP; subst is n lc'; clear CP.
+  destruct (entry_env d0 args) as [e0|] eqn:EE; [|subst o; exfalso; destruct G as [(z & H)|(z & H)]; discriminate].
+  unfold entry_env in EE. apply bind_length in EE. unfold vars in EE. rewrite !map_length in EE. auto.
+Qed.
+
+Corollary a64_codegen_correct_int p lc cs n lc' args fuel o :
+  int_frag p = true -> plain_names p = true -> lits_i64 p = true -> lin_check_prog p = true -> asm_wf cs = None ->
+  a64_compile p lc = Ok (cs, n, lc') -> args_i64 args = true ->
+  run_linear fuel p args = o -> defined o = true ->
+  exists outer inner, fst (run_a64 outer inner cs args) = o.
+Proof.
+  intros I P L LC W X A R D.
+  assert (G : good o) by (left; unfold defined in D; destruct (snd o); try discriminate; eauto).
+  eapply a64_codegen_simulates_int; eauto; [eapply a64_compile_arity; eauto|apply good_not_oof; exact G].
+Qed.
